@@ -37,7 +37,7 @@ def target_kinds_for(cls):
 
 
 @st.composite
-def fitted_case(draw, classes, max_features=3, dev_modes=None, quant_pools=None, allow_missing=True, min_features=1, cat_flavours=None):
+def fitted_case(draw, classes, max_features=3, dev_modes=None, quant_pools=None, allow_missing=True, min_features=1, cat_flavours=None, twin_boost=False, feature_kinds=None):
     """A sample plus the specification of the object to fit on it."""
     cls = draw(st.sampled_from(list(classes)))
     is_carver = cls in CARVERS
@@ -46,15 +46,33 @@ def fitted_case(draw, classes, max_features=3, dev_modes=None, quant_pools=None,
     case = draw(
         sample_case(
             target_kinds=target_kinds_for(cls),
-            feature_kinds=KINDS[cls],
+            feature_kinds=feature_kinds or KINDS[cls],
             min_features=min_features,
             max_features=max_features,
             dev_modes=dev_modes,
             quant_pools=quant_pools,
             allow_missing=allow_missing,
             cat_flavours=cat_flavours,
+            twin_boost=twin_boost,
         )
     )
+    # integer-valued quantitative columns without missing values are stored as int64 half of the time
+    for f in case["features"]:
+        if (
+            f["kind"] in ("continuous", "discrete")
+            and "dtype" not in f
+            and all(float(v).is_integer() and abs(v) < 2**53 for v in f["values"])
+            and all(r[-1] == 0 for r in f["train"])
+            and (f["dev"] is None or all(r[-1] == 0 for r in f["dev"]))
+            and draw(st.booleans())
+        ):
+            f["dtype"] = "int64"
+    # feature names: in a share of the cases one name is a '_'-prefix of another (v, v_x, v_x_y)
+    if cls != "MulticlassCarver" and len(case["features"]) >= 2 and draw(st.integers(0, 3)) == 0:
+        chain = "v"
+        for f in case["features"]:
+            f["name"] = chain
+            chain = chain + "_" + {"continuous": "q", "discrete": "d", "ordinal": "o", "categorical": "c"}[f["kind"]]
     if cls == "ChainedDiscretizer":
         # one feature, string leaves, and a 2-level hierarchy derived from the values: consecutive leaves are
         # grouped by 2-3 under G<i>, all groups under ROOT
